@@ -133,6 +133,23 @@ def generate(repo):
     out.append("Definition gen_vc_lens : bool := %s.\nDefinition gen_vc_bounds_all : bool := %s.\nDefinition gen_vc_sorted : bool := %s.\n"
                % (vc["lens"], vc["bounds_all"], vc["sorted"]))
 
+    # ---- CompositeValidator::validate_block_request: range order test and block count (machine arithmetic)
+    border = "false"
+    bcount = "(N.min ((to - from_) + 1) 18446744073709551615)"
+    try:
+        src = strip_comments(read(repo, "tensor_chain/src/message_validation.rs"))
+        _, body = find_fn(src, "validate_block_request")
+        if re.search(r"if\s+msg\.to_height\s*<\s*msg\.from_height\s*\{\s*return\s+Err\(", body):
+            border = "true"
+        m = re.search(r"let\s+(\w+)\s*=\s*([^;]+);\s*if\s+\1\s*>\s*self\.config\.max_blocks_per_request\s*\{\s*return\s+Err\(", body, re.S)
+        if not m:
+            raise KeyError("block count binding / limit test not found")
+        bcount = coq(parse_expr(m.group(2)), Env({"msg.to_height": "to", "msg.from_height": "from_"}, wrap=True))
+        items["block_request"] = "translated"
+    except Exception as ex:
+        items["block_request"] = "miss:%s" % ex
+    out.append("Definition gen_block_order_checked : bool := %s.\nDefinition gen_block_count (from_ to : N) : N := %s.\n" % (border, bcount))
+
     # ---- compression constants
     vals = {"none": 0, "lz4": 1, "maxd": 16 * 1024 * 1024}
     try:
